@@ -15,7 +15,7 @@
    Theorems marked [definitional] restate a definition; they document the model and cover no clause by themselves. *)
 From Coq Require Import ZArith List Bool String.
 Import ListNotations.
-Require Import PyBase Generated Locate LocateFacts LocateExamples LocateIndex LocateIndexFacts Reindex ReindexPd ReindexFacts ReindexFacts2 ReindexExamples.
+Require Import PyBase Generated Locate LocateFacts LocateExamples LocateIndex LocateIndexFacts Reindex ReindexFacts ReindexFacts2 ReindexExamples.
 Open Scope Z_scope.
 Open Scope list_scope.
 
@@ -59,11 +59,10 @@ Section C12.
                (c_vars st) (c_vars st').
   Proof. exact (reindex_values pd_get_loc pd_contains cast st st' new_span new_id fv strict fills fresh). Qed.
 
-  (* the hypothesis on the old span holds for list / tuple / range (step <> 0) / duplicate-free NumPy spans (labels
-     that are not tuples) and for pandas indexes whose two oracles answer by membership / position *)
+  (* the hypothesis on the old span holds for list / tuple / range (step <> 0) / duplicate-free NumPy-array spans (ANY new labels,
+     also tuples, since fix 35fe7e2) and for pandas indexes whose two oracles answer by membership / position *)
   Theorem C12_old_span_ok (old : span) (labels : list label) :
     span_ok pd_get_loc old ->
-    (forall p, In p labels -> label_ok old p) ->
     (forall ls, old = SPandas ls -> forall p, In p labels -> pd_contains ls p = is_some (pos p ls)) ->
     old_span_ok pd_get_loc pd_contains old labels.
   Proof. exact (old_span_ok_intro pd_get_loc pd_contains old labels). Qed.
@@ -219,11 +218,22 @@ Section C12.
     exists st', reindex_M pd_get_loc pd_contains cast st new_span new_id fv strict fills fresh = Ret st'.
   Proof. exact (reindex_succeeds pd_get_loc pd_contains cast st new_span new_id fv strict fills fresh). Qed.
 
-  (* ---------- the pandas mixin: whatever Series.reindex and the casting assignment answer, its loop leaves span,
-     attributes, strictness, variable order, dtypes and every variable not in `names` (status, iterations) as the
-     core reindex made them ---------- *)
+  (* ---------- the pandas mixin (PandasIndexFeaturesMixin.reindex, since fix 2658d81): it calls the core model reindex WITH the fill
+     arguments and consults pandas only for variables that have a fill method.  Series.reindex and NumPy's casting assignment are
+     oracles (Section variables); K supplies their recorded answers. ---------- *)
   Variable series_reindex : span -> dtype -> list cell -> span -> option string -> pyval -> outcome (list cell).
   Variable assign_cast : dtype -> list cell -> outcome (list cell).
+
+  (* with its DEFAULT pandas arguments the mixin IS the core model reindex with the same fill arguments — whatever pandas would answer
+     (formerly refuted: findings #11 and status / iterations keywords) *)
+  Theorem C12_pandas_default_is_core (st : cst) (names : list string) (new_span : span) (new_id : Z)
+          (fv : pyval) (strict : option bool) (fills : list (string * pyval)) (fresh : Z) :
+    pandas_reindex_M pd_get_loc pd_contains cast series_reindex assign_cast st names new_span new_id None fv strict fills [] [] [] [] [] fresh
+    = model_reindex_M pd_get_loc pd_contains cast st new_span new_id fv strict fills fresh.
+  Proof. exact (pandas_default_is_core pd_get_loc pd_contains cast series_reindex assign_cast st names new_span new_id fv strict fills fresh). Qed.
+
+  (* whatever the oracles answer, the loop leaves span, attributes, strictness, variable order, dtypes and every variable not in
+     `names` as the core reindex made them *)
   Theorem C12_pandas_loop_frame orig new_span mf fills fv names r r' :
     pandas_loop series_reindex assign_cast orig new_span mf fills fv names r = Ret r' ->
     c_span r' = c_span r /\ c_span_id r' = c_span_id r /\ c_attrs r' = c_attrs r /\ c_strict r' = c_strict r
@@ -231,45 +241,49 @@ Section C12.
     /\ map (fun kv => s_dtype (snd kv)) (c_vars r') = map (fun kv => s_dtype (snd kv)) (c_vars r)
     /\ (forall k, in_names k names = false -> lookup k (c_vars r') = lookup k (c_vars r)).
   Proof. exact (pandas_loop_frame series_reindex assign_cast orig new_span mf fills fv names r r'). Qed.
-  (* each variable in `names` ends up holding NumPy's cast (to the dtype the core reindex kept) of what Series.reindex answered
-     for that variable's method and that variable's fill (per-variable keyword, else fill_value): new periods hold pandas'
-     fills — which is why the default arguments do not reproduce the core's dtype defaults (finding #11) *)
+
+  (* each variable in `names`: without a fill method it is exactly as the core made it; with a method m it holds NumPy's cast (to the
+     dtype the core kept) of what Series.reindex answered for m and that variable's fill (per-variable keyword, else fill_value) *)
   Theorem C12_pandas_loop_var orig new_span mf fills fv names r r' :
     NoDup names ->
     pandas_loop series_reindex assign_cast orig new_span mf fills fv names r = Ret r' ->
     forall name, In name names ->
-    exists so sn vals d,
-      lookup name (c_vars orig) = Some so /\ lookup name (c_vars r) = Some sn
-      /\ series_reindex (c_span orig) (s_dtype so) (s_data so) new_span (mf name) (fill_for fills fv name) = Ret vals
-      /\ assign_cast (s_dtype sn) vals = Ret d
-      /\ lookup name (c_vars r') = Some (mkSeries (s_dtype sn) (s_id sn) d).
+    match mf name with
+    | None => lookup name (c_vars r') = lookup name (c_vars r)
+    | Some m =>
+        exists so sn vals d,
+          lookup name (c_vars orig) = Some so /\ lookup name (c_vars r) = Some sn
+          /\ series_reindex (c_span orig) (s_dtype so) (s_data so) new_span (Some m) (fill_for fills fv name) = Ret vals
+          /\ assign_cast (s_dtype sn) vals = Ret d
+          /\ lookup name (c_vars r') = Some (mkSeries (s_dtype sn) (s_id sn) d)
+    end.
   Proof. exact (pandas_loop_var series_reindex assign_cast orig new_span mf fills fv names r r'). Qed.
 
-  (* [conditional: assumes each iteration reproduces the core's series and concludes the loop is the identity; its hypothesis is
-     discharged for float64 variables relative to the pandas model in C12_pandas_float_unaffected] *)
-  Theorem C12_pandas_loop_noop orig new_span mf fills fv names r :
-    (forall name, In name names ->
-       exists so sn, lookup name (c_vars orig) = Some so /\ lookup name (c_vars r) = Some sn
-         /\ exists vals, series_reindex (c_span orig) (s_dtype so) (s_data so) new_span (mf name) (fill_for fills fv name) = Ret vals
-                      /\ assign_cast (s_dtype sn) vals = Ret (s_data sn)) ->
+  (* no fill method for any variable: the loop is the identity *)
+  Theorem C12_pandas_loop_no_method orig new_span mf fills fv names r :
+    (forall name, In name names -> mf name = None) ->
     pandas_loop series_reindex assign_cast orig new_span mf fills fv names r = Ret r.
-  Proof. exact (pandas_loop_noop series_reindex assign_cast orig new_span mf fills fv names r). Qed.
-  (* the mixin as a whole: it calls the core reindex WITHOUT any fill argument and then overwrites the variables in `names`;
-     so span, strictness, attributes, variable order and dtypes are the core's, and every variable outside `names` (status,
-     iterations) holds its old values at overlapping periods and '-' / -1 at the new ones, whatever keywords were given *)
+  Proof. exact (pandas_loop_no_method series_reindex assign_cast orig new_span mf fills fv names r). Qed.
+
+  (* the mixin as a whole, with any arguments: metadata are the core's; every variable outside `names` and every variable without a
+     fill method holds its old values at overlapping periods and its own fill (keyword > fill_value > dtype default; '-' / -1 for
+     status / iterations) at the new ones *)
   Theorem C12_pandas_reindex_meta (st st' : cst) (names : list string) (new_span : span) (new_id : Z) (method : option string)
           (fv : pyval) (strict : option bool) (fills : list (string * pyval)) (l1 l2 l3 l4 l5 : list string) (fresh : Z) :
     wf st ->
     old_span_ok pd_get_loc pd_contains (c_span st) (span_labels new_span) ->
+    NoDup names ->
     pandas_reindex_M pd_get_loc pd_contains cast series_reindex assign_cast st names new_span new_id method fv strict fills l1 l2 l3 l4 l5 fresh = Ret st' ->
     c_span st' = new_span /\ c_span_id st' = fresh /\ c_strict st' = c_strict st
     /\ attrs_view (c_attrs st') = attrs_view (c_attrs st)
     /\ map fst (c_vars st') = map fst (c_vars st)
     /\ map (fun kv => s_dtype (snd kv)) (c_vars st') = map (fun kv => s_dtype (snd kv)) (c_vars st)
-    /\ (forall k sr, in_names k names = false -> lookup k (c_vars st) = Some sr ->
+    /\ (forall k sr, (in_names k names = false \/ method_for l1 l2 l3 l4 l5 method k = None) -> lookup k (c_vars st) = Some sr ->
           exists sr' c, lookup k (c_vars st') = Some sr' /\ s_dtype sr' = s_dtype sr
             /\ fill_cell cast (List.length (span_labels new_span)) (s_dtype sr)
-                 (if String.eqb k "status" then PStr "-" else if String.eqb k "iterations" then PInt (-1) else PNone) = Ret c
+                 (if String.eqb k "status" then match lookup "status" fills with Some v => v | None => PStr "-" end
+                  else if String.eqb k "iterations" then match lookup "iterations" fills with Some v => v | None => PInt (-1) end
+                  else match lookup k fills with Some v => v | None => fv end) = Ret c
             /\ map erase (s_data sr') = map erase (map (fun p => match pos p (span_labels (c_span st)) with
                                                                   | Some q => nth q (s_data sr) c
                                                                   | None => c
@@ -298,7 +312,8 @@ Print Assumptions C12_reindex_roundtrip.
 Print Assumptions C12_reindex_same_labels_identity.
 Print Assumptions C12_reindex_then_label_get.
 Print Assumptions C12_pandas_loop_var.
-Print Assumptions C12_pandas_loop_noop.
+Print Assumptions C12_pandas_loop_no_method.
+Print Assumptions C12_pandas_default_is_core.
 Print Assumptions C12_pandas_reindex_meta.
 
 (* [near-definitional: unfolds with_model_defaults; used by C12_model_reindex_values, which covers the clause] models: status '-'
@@ -311,40 +326,34 @@ Theorem C12_model_defaults (fills : list (string * pyval)) (fv : pyval) :
 Proof. exact (model_defaults fills fv). Qed.
 Print Assumptions C12_model_defaults.
 
-(* ---------- refutations (findings #11, the tuple label, the mixin's status keyword; the former refutations for object cells
-   (#21) and the span object are gone: fixes 28b2a9a / af303e7 made C12_reindex_shares_nothing hold without those guards) ---------- *)
-Theorem C12_pandas_default_fill_refuted :
+(* ---------- formerly refuted, now positive (fixes 28b2a9a, af303e7, 2658d81, 35fe7e2): no finding of C12 is left ---------- *)
+(* finding #11: with default arguments the mixin's new period holds the dtype defaults, and the call IS the core model reindex *)
+Theorem C12_pandas_default_fill_is_core :
   exists st', rx_pandas_result = Ret st'
-    /\ map (fun kv => nth 2 (s_data (snd kv)) (CV PNone)) (c_vars st')
-       = [CS "-"; CI (-1); CF FNan; CI (-9223372036854775808); CB true; CS "na"]
-    /\ option_map (fun s => map (fun kv => nth 2 (s_data (snd kv)) (CV PNone)) (c_vars s))
-                  (match model_reindex_M no_pandas no_contains cast_tbl rx_pmodel (SRange 2001 1 3) 9 PNone None [] 100 with Ret s => Some s | Raise _ => None end)
-       = Some [CS "-"; CI (-1); CF FNan; CI 0; CB false; CS ""].
-Proof. exact pandas_default_fill_refuted. Qed.
-Print Assumptions C12_pandas_default_fill_refuted.
+    /\ map (fun kv => nth 2 (s_data (snd kv)) (CV PNone)) (c_vars st') = [CS "-"; CI (-1); CF FNan; CI 0; CB false; CS ""]
+    /\ rx_pandas_result = model_reindex_M no_pandas no_contains cast_tbl rx_pmodel (SRange 2001 1 3) 9 PNone None [] 100.
+Proof. exact pandas_default_fill_is_core. Qed.
+Print Assumptions C12_pandas_default_fill_is_core.
 
-(* the guard `label_ok` (no tuple label against a NumPy-array old span) of C12_old_span_ok is needed: the new period (2, 3)
-   receives the old value of period 2 instead of the fill NaN *)
-Theorem C12_arr_tuple_label_refuted :
-  exists st st' p, wf st /\ ~ In p (span_labels (c_span st))
-    /\ reindex_M no_pandas no_contains cast_tbl st (SList [p]) 9 PNone None [] 100 = Ret st'
-    /\ map (fun kv => s_data (snd kv)) (c_vars st') = [[CF (FNum 3)]]
-    /\ fill_cell cast_tbl 1 DFloat PNone = Ret (CF FNan).
-Proof. exact reindex_arr_tuple_label_refuted. Qed.
-Print Assumptions C12_arr_tuple_label_refuted.
+(* a tuple label of the new span against a NumPy-array old span is a NEW period and gets the fill; the hypotheses of
+   C12_reindex_values hold for it (old_span_ok) *)
+Theorem C12_arr_tuple_label_is_new_period :
+  wf rx_arr_state /\ old_span_ok no_pandas no_contains (c_span rx_arr_state) [LPair 2 3; LPair 2 5; LInt 5]
+  /\ option_map (fun s => map (fun kv => s_data (snd kv)) (c_vars s))
+                (match reindex_M no_pandas no_contains cast_tbl rx_arr_state (SList [LPair 2 3; LPair 2 5; LInt 5]) 9 PNone None [] 100 with Ret s => Some s | Raise _ => None end)
+     = Some [[CF FNan; CF FNan; CF (FNum (-4))]].
+Proof. exact reindex_arr_tuple_label_is_new_period. Qed.
+Print Assumptions C12_arr_tuple_label_is_new_period.
 
-(* the mixin tests and applies fill keywords against `names` only (which lacks status / iterations): the keyword status='F'
-   is rejected under strict and ignored otherwise, whereas the core reindex of the same model honours it *)
-Theorem C12_pandas_status_keyword_refuted :
-  pandas_reindex_M no_pandas no_contains cast_tbl pd_like_series_reindex np_like_assign_cast
-                   rx_pmodel ["Y"; "I"; "B"; "S"]%string (SRange 2001 1 3) 9 None PNone (Some true) [("status"%string, PStr "F")] [] [] [] [] [] 100 = Raise KeyError
-  /\ (exists st', pandas_reindex_M no_pandas no_contains cast_tbl pd_like_series_reindex np_like_assign_cast
-                   rx_pmodel ["Y"; "I"; "B"; "S"]%string (SRange 2001 1 3) 9 None PNone (Some false) [("status"%string, PStr "F")] [] [] [] [] [] 100 = Ret st'
-                  /\ option_map (fun sr => nth 2 (s_data sr) (CV PNone)) (lookup "status" (c_vars st')) = Some (CS "-"))
-  /\ (exists st', model_reindex_M no_pandas no_contains cast_tbl rx_pmodel (SRange 2001 1 3) 9 PNone (Some true) [("status"%string, PStr "F")] 100 = Ret st'
-                  /\ option_map (fun sr => nth 2 (s_data sr) (CV PNone)) (lookup "status" (c_vars st')) = Some (CS "F")).
-Proof. exact pandas_status_keyword_refuted. Qed.
-Print Assumptions C12_pandas_status_keyword_refuted.
+(* the status / iterations keywords through the mixin are honoured, with and without strict *)
+Theorem C12_pandas_status_keyword_honoured :
+  forall strict,
+  exists st', pandas_reindex_M no_pandas no_contains cast_tbl pd_like_series_reindex np_like_assign_cast
+                   rx_pmodel ["Y"; "I"; "B"; "S"]%string (SRange 2001 1 3) 9 None PNone (Some strict) [("status"%string, PStr "F"); ("iterations"%string, PInt 0)] [] [] [] [] [] 100 = Ret st'
+    /\ option_map (fun sr => nth 2 (s_data sr) (CV PNone)) (lookup "status" (c_vars st')) = Some (CS "F")
+    /\ option_map (fun sr => nth 2 (s_data sr) (CV PNone)) (lookup "iterations" (c_vars st')) = Some (CI 0).
+Proof. exact pandas_status_keyword_honoured. Qed.
+Print Assumptions C12_pandas_status_keyword_honoured.
 
 (* ---------- pandas PeriodIndex / DatetimeIndex old spans WITHOUT an oracle hypothesis: with the regular-index model of
    get_loc / __contains__ (LocateIndex.v; tied to pandas by the correspondence check) the hypothesis old_span_ok is proved,
@@ -378,24 +387,6 @@ Theorem C12_linker_reindex_not_implemented (st : cst) new_span new_id fv strict 
   linker_reindex_M st new_span new_id fv strict fills fresh = Raise NotImplementedError.
 Proof. exact (linker_reindex_not_implemented st new_span new_id fv strict fills fresh). Qed.
 Print Assumptions C12_linker_reindex_not_implemented.
-
-(* ---------- the mixin relative to a MODEL of pandas for float64 series (ReindexPd.v: Series.reindex without method / fill value =
-   old value by label else NaN; the float64 casting assignment = identity; both compared with every recorded pandas answer of that
-   kind by the correspondence check): with default arguments every float64 variable is left exactly as the core reindex made it —
-   finding #11 concerns the other dtypes only ---------- *)
-Theorem C12_pandas_float_unaffected (pd_get_loc : list label -> label -> outcome loc) (pd_contains : list label -> label -> bool)
-        (cast : nat -> dtype -> pyval -> outcome cell) (st r : cst) (names : list string) (new_span : span) (new_id fresh : Z)
-        (mf : string -> option string) :
-  wf st ->
-  old_span_ok pd_get_loc pd_contains (c_span st) (span_labels new_span) ->
-  (forall n, cast n DFloat PNone = Ret (CF FNan)) ->
-  (forall name, In name names ->
-     mf name = None /\ name <> "status"%string /\ name <> "iterations"%string
-     /\ exists sr, lookup name (c_vars st) = Some sr /\ s_dtype sr = DFloat /\ forallb is_cf (s_data sr) = true) ->
-  model_reindex_M pd_get_loc pd_contains cast st new_span new_id PNone None [] fresh = Ret r ->
-  pandas_loop float_series_reindex float_assign_cast st new_span mf [] PNone names r = Ret r.
-Proof. exact (pandas_float_unaffected pd_get_loc pd_contains cast st r names new_span new_id fresh mf). Qed.
-Print Assumptions C12_pandas_float_unaffected.
 
 (* ... and for any other pandas index (pd.Index of ints / strs, irregular DatetimeIndex) under the plain model of get_loc /
    __contains__ (position of the label; compared with every recorded pandas answer on duplicate-free indexes) *)
